@@ -341,10 +341,12 @@ impl idlc_codegen::functions::ParameterVisitor for Implementation {
             "#,
         ));
         self.post_call.push(format!(
-            r#"{BYTE_BUFFER} {BUNDLE_OUT};
+            r#"{{
+            {BYTE_BUFFER} {BUNDLE_OUT};
             {BUNDLE_OUT} = {BYTE_BUFFER}.wrap({BO}[{bo_idx}]).order({BYTE_ORDER});
             if({name} != null) {{
                 {name}[0] = {BUNDLE_OUT}.get{ty}();
+            }}
             }}
             "#,
         ));
@@ -365,8 +367,10 @@ impl idlc_codegen::functions::ParameterVisitor for Implementation {
             "#,
         ));
         self.post_call.push(format!(
-            r#"{BYTE_BUFFER} {BUNDLE_OUT} = {BYTE_BUFFER}.wrap({BO}[{bo_idx}]).order({BYTE_ORDER});
+            r#"{{
+            {BYTE_BUFFER} {BUNDLE_OUT} = {BYTE_BUFFER}.wrap({BO}[{bo_idx}]).order({BYTE_ORDER});
             {definition}
+            }}
             "#,
         ));
     }
@@ -394,9 +398,11 @@ impl idlc_codegen::functions::ParameterVisitor for Implementation {
             "#,
         ));
         self.post_call.push(format!(
-            r#"{BYTE_BUFFER} {BUNDLE_OUT} = {BYTE_BUFFER}.wrap({BO}[{bo_idx}]).order({BYTE_ORDER});
+            r#"{{
+            {BYTE_BUFFER} {BUNDLE_OUT} = {BYTE_BUFFER}.wrap({BO}[{bo_idx}]).order({BYTE_ORDER});
             if ({name} != null) {{
                 {fields}
+            }}
             }}
             "#,
         ));
